@@ -25,7 +25,7 @@ theorem apply_place_flat_w (basis : Array W) (p : Pos) (x y : Nat) (hx : x < p.c
   simp only [Bool.or_eq_false_iff] at hemp
   unfold Pos.apply
   simp [Facts.mtPlaceFlat, Facts.mtPlaceCapstone, Facts.mtPlaceStanding, Facts.mtPass, hw, h2, hx', hy', hxn, hyn, hidx,
-    hemp.1, hemp.2, hst]
+    hemp.1, hemp.2, hst, dispatch, openingRule, placeOn]
   apply finish_exists
   intro wg bg hwg hbg
   constructor <;> simp only [] <;> first | rfl | assumption | place_bits hs64
@@ -50,7 +50,7 @@ theorem apply_place_cap_w (basis : Array W) (p : Pos) (x y : Nat) (hx : x < p.cf
   simp only [Bool.or_eq_false_iff] at hemp
   unfold Pos.apply
   simp [Facts.mtPlaceFlat, Facts.mtPlaceCapstone, Facts.mtPlaceStanding, Facts.mtPass, hw, h2, hx', hy', hxn, hyn, hidx,
-    hemp.1, hemp.2, hst]
+    hemp.1, hemp.2, hst, dispatch, openingRule, placeOn]
   apply finish_exists
   intro wg bg hwg hbg
   constructor <;> simp only [] <;> first | rfl | assumption | place_bits hs64
@@ -75,7 +75,7 @@ theorem apply_place_flat_b (basis : Array W) (p : Pos) (x y : Nat) (hx : x < p.c
   simp only [Bool.or_eq_false_iff] at hemp
   unfold Pos.apply
   simp [Facts.mtPlaceFlat, Facts.mtPlaceCapstone, Facts.mtPlaceStanding, Facts.mtPass, hw, h2, hx', hy', hxn, hyn, hidx,
-    hemp.1, hemp.2, hst]
+    hemp.1, hemp.2, hst, dispatch, openingRule, placeOn]
   apply finish_exists
   intro wg bg hwg hbg
   constructor <;> simp only [] <;> first | rfl | assumption | place_bits hs64
@@ -100,7 +100,7 @@ theorem apply_place_cap_b (basis : Array W) (p : Pos) (x y : Nat) (hx : x < p.cf
   simp only [Bool.or_eq_false_iff] at hemp
   unfold Pos.apply
   simp [Facts.mtPlaceFlat, Facts.mtPlaceCapstone, Facts.mtPlaceStanding, Facts.mtPass, hw, h2, hx', hy', hxn, hyn, hidx,
-    hemp.1, hemp.2, hst]
+    hemp.1, hemp.2, hst, dispatch, openingRule, placeOn]
   apply finish_exists
   intro wg bg hwg hbg
   constructor <;> simp only [] <;> first | rfl | assumption | place_bits hs64
